@@ -7,6 +7,7 @@ import Driver.PipelineD
 import Driver.WsaD
 import Driver.WsseD
 import Driver.LexD
+import Driver.UnwrapD
 /-! Line-protocol driver: one JSON object per stdin line, one per stdout line. -/
 open Lean Driver
 
@@ -27,6 +28,7 @@ def dispatch (j : Json) : R Json := do
   | "sha1" => sha1Hex j
   | "lex.enc" => lexEnc j
   | "lex.dec" => lexDec j
+  | "soap.unwrap" => soapUnwrap j
   | _ => throw s!"unknown op {op}"
 
 def handleLine (line : String) : String :=
